@@ -124,7 +124,7 @@ def _search_task(check_id: str, tier: str, shard: int, seed: int, exclude: List[
     st: Dict[str, Any] = dict(
         evaluations=0, rejected=0, excluded_by_finding=0, duplicates_of_reported=0,
         truncated_by_time=False, classes=Counter(), nontrivial=set(), samples=[], trivial_samples=[],
-        failures=[], harness_error=None, enumerated=0,
+        failures=[], harness_error=None, enumerated=0, excluded_by_feature=Counter(),
     )
     reported_keys: set = set()
     round_fail: Dict[Tuple[str, str], Tuple[Any, Outcome]] = {}
@@ -135,6 +135,8 @@ def _search_task(check_id: str, tier: str, shard: int, seed: int, exclude: List[
         feats = check.static_features(ir)
         if feats & excl:
             st["excluded_by_finding"] += 1
+            for f in feats & excl:
+                st["excluded_by_feature"][f] += 1
             return
         out = safe_run(check, ir)
         if out.rejected:
@@ -229,6 +231,7 @@ def _search_task(check_id: str, tier: str, shard: int, seed: int, exclude: List[
             st["truncated_by_time"] = True
             break
     st["classes"] = dict(st["classes"])
+    st["excluded_by_feature"] = dict(st["excluded_by_feature"])
     st["nontrivial"] = sorted(st["nontrivial"])
     st["wall"] = time.monotonic() - t0
     st["extra"] = check.extra_evidence()
@@ -325,6 +328,7 @@ def run_check(check_id: str, tier: str, seed: int, examples_override: Optional[i
     cov: Dict[str, Any] = dict(evaluations=0, rejected_by_precondition=0, excluded_by_finding=0,
                                duplicates_of_reported=0, enumerated=0)
     classes: Counter = Counter()
+    excluded_by_feature: Counter = Counter()
     nontrivial: set = set()
     samples: List[Any] = []
     trivial_samples: List[Any] = []
@@ -338,6 +342,7 @@ def run_check(check_id: str, tier: str, seed: int, examples_override: Optional[i
         cov["duplicates_of_reported"] += s["duplicates_of_reported"]
         cov["enumerated"] += s["enumerated"]
         classes.update(s["classes"])
+        excluded_by_feature.update(s.get("excluded_by_feature", {}))
         nontrivial.update(s["nontrivial"])
         truncated = truncated or s["truncated_by_time"]
         for x in s["samples"]:
@@ -378,6 +383,7 @@ def run_check(check_id: str, tier: str, seed: int, examples_override: Optional[i
                            corpus_nontrivial=sum(1 for c in rep["corpus"] if c["nontrivial"]))
     cov["active_findings"] = [f["id"] for f in active]
     cov["excluded_features"] = exclude
+    cov["excluded_by_feature"] = dict(sorted(excluded_by_feature.items()))
     cov.update(extra)
     wall = time.monotonic() - t0
     write_evidence(check, tier, seed, cov, wall, len(violations))
